@@ -68,7 +68,7 @@ fn dir(rng: &mut Rng, c: &Cfg, flavor: Flavor, budget_units: usize) -> DirSpec {
     while total / eff_unit.max(1) > budget_units / (1 + read_pause as usize) {
         total /= 4;
     }
-    let minw = *wchunks.iter().min().unwrap();
+    let minw = (*wchunks.iter().min().unwrap()).min(c.send_cap);
     let writes = total / minw.max(1);
     let write_pause = if writes <= 12 && rng.chance(0.25) {
         rng.pick_copy(&[1u32, 4, 25])
